@@ -1,6 +1,352 @@
-//! C39 — not implemented yet.
+//! C39 — The TPC-H generator is deterministic and self-consistent.
+//!
+//! Code under test: `src/tpch/generator.rs` (`TpchGenerator::with_seed`,
+//! `generate_all`, `generate_to_parquet`) and `src/tpch/schema.rs`
+//! (`TpchRowCounts::for_scale_factor`).
+//!
+//! Input domain: scale factors 0.001..0.05 (below 0.0001 the supplier count
+//! truncates to 0 and the generator divides by it — outside the quantifier) and
+//! any u64 seed.
+//!
+//! Per (sf, seed) the check
+//!  1. generates in memory twice sequentially and on 4 threads concurrently:
+//!     all runs cell-identical (schema, row count, every buffer bit);
+//!  2. generates to Parquet with the same seed and reads the files back with the
+//!     parquet crate's own Arrow reader: identical to the in-memory tables;
+//!  3. row counts = TPC-H ratio × sf within ±1 (the code truncates), nation 25,
+//!     region 5;
+//!  4. every single-column foreign key the generator produces from the parent's
+//!     row count hits an existing parent key: l_orderkey→orders, l_partkey→part,
+//!     l_suppkey→supplier, ps_partkey→part, ps_suppkey→supplier,
+//!     s_nationkey→nation, c_nationkey→nation, n_regionkey→region.
+//!     `o_custkey` is NOT asserted: generator.rs documents drawing it from 1.5×
+//!     the customer range on purpose. The hit rate of o_custkey and of the
+//!     composite (l_partkey,l_suppkey)→partsupp are measured into labels only.
 use super::Property;
+use crate::data::TempDir;
+use crate::runner::*;
+use arrow::array::*;
+use arrow::record_batch::RecordBatch;
+use proptest::prelude::*;
+use query_engine::tpch::TpchGenerator;
+use query_engine::ExecutionContext;
+use serde::{Deserialize, Serialize};
+use std::collections::{BTreeMap, HashSet};
+
+const TABLES: [&str; 8] = ["nation", "region", "part", "supplier", "partsupp", "customer", "orders", "lineitem"];
+/// TPC-H cardinalities at SF 1
+const RATIO: [(&str, f64); 6] = [
+    ("part", 200_000.0),
+    ("supplier", 10_000.0),
+    ("partsupp", 800_000.0),
+    ("customer", 150_000.0),
+    ("orders", 1_500_000.0),
+    ("lineitem", 6_000_000.0),
+];
+/// (child table, child column, parent table, parent key column)
+const FKS: [(&str, &str, &str, &str); 8] = [
+    ("lineitem", "l_orderkey", "orders", "o_orderkey"),
+    ("lineitem", "l_partkey", "part", "p_partkey"),
+    ("lineitem", "l_suppkey", "supplier", "s_suppkey"),
+    ("partsupp", "ps_partkey", "part", "p_partkey"),
+    ("partsupp", "ps_suppkey", "supplier", "s_suppkey"),
+    ("supplier", "s_nationkey", "nation", "n_nationkey"),
+    ("customer", "c_nationkey", "nation", "n_nationkey"),
+    ("nation", "n_regionkey", "region", "r_regionkey"),
+];
+
+#[derive(Clone, Debug, Serialize, Deserialize)]
+pub struct GenCase {
+    /// scale factor in units of 1e-4 (10 = 0.001, 500 = 0.05)
+    pub sf_e4: u32,
+    pub seed: u64,
+}
+
+type Tables = BTreeMap<String, RecordBatch>;
+
+fn generate_mem(sf: f64, seed: u64) -> Result<Tables, String> {
+    let mut ctx = ExecutionContext::new();
+    let mut g = TpchGenerator::with_seed(sf, seed);
+    g.generate_all(&mut ctx);
+    let mut out = Tables::new();
+    for t in TABLES {
+        let p = ctx.table_provider(t).ok_or_else(|| format!("generate_all did not register table {}", t))?;
+        let batches = p.scan(None).map_err(|e| format!("scan {}: {}", t, e))?;
+        let schema = p.schema();
+        let b = arrow::compute::concat_batches(&schema, &batches).map_err(|e| format!("concat {}: {}", t, e))?;
+        out.insert(t.to_string(), b);
+    }
+    Ok(out)
+}
+
+fn read_parquet_dir(dir: &std::path::Path) -> Result<Tables, String> {
+    use parquet::arrow::arrow_reader::ParquetRecordBatchReaderBuilder;
+    let mut out = Tables::new();
+    for t in TABLES {
+        let path = dir.join(format!("{}.parquet", t));
+        let f = std::fs::File::open(&path).map_err(|e| format!("{} not written: {}", path.display(), e))?;
+        let rd = ParquetRecordBatchReaderBuilder::try_new(f)
+            .map_err(|e| format!("{}: {}", path.display(), e))?
+            .with_batch_size(8192)
+            .build()
+            .map_err(|e| format!("{}: {}", path.display(), e))?;
+        let mut batches = vec![];
+        let mut schema = None;
+        for b in rd {
+            let b = b.map_err(|e| format!("{}: {}", path.display(), e))?;
+            schema.get_or_insert(b.schema());
+            batches.push(b);
+        }
+        let schema = match schema {
+            Some(s) => s,
+            None => {
+                // zero rows: take the schema from the file
+                let f = std::fs::File::open(&path).map_err(|e| e.to_string())?;
+                ParquetRecordBatchReaderBuilder::try_new(f).map_err(|e| e.to_string())?.schema().clone()
+            }
+        };
+        let b = arrow::compute::concat_batches(&schema, &batches).map_err(|e| format!("concat {}: {}", t, e))?;
+        out.insert(t.to_string(), b);
+    }
+    Ok(out)
+}
+
+/// first difference between two table sets, None when cell-identical
+fn diff(a: &Tables, b: &Tables) -> Option<String> {
+    for t in TABLES {
+        let (x, y) = match (a.get(t), b.get(t)) {
+            (Some(x), Some(y)) => (x, y),
+            _ => return Some(format!("table {} missing on one side", t)),
+        };
+        if x.num_columns() != y.num_columns() {
+            return Some(format!("{}: {} vs {} columns", t, x.num_columns(), y.num_columns()));
+        }
+        if x.num_rows() != y.num_rows() {
+            return Some(format!("{}: {} vs {} rows", t, x.num_rows(), y.num_rows()));
+        }
+        for c in 0..x.num_columns() {
+            let (fx, fy) = (x.schema().field(c).clone(), y.schema().field(c).clone());
+            if fx.name() != fy.name() || fx.data_type() != fy.data_type() {
+                return Some(format!("{}: column {} is {:?} vs {:?}", t, c, fx, fy));
+            }
+            let (cx, cy) = (x.column(c), y.column(c));
+            if cx.to_data() != cy.to_data() {
+                let fmt = |a: &ArrayRef, i: usize| {
+                    arrow::util::display::array_value_to_string(a, i).unwrap_or_else(|_| "?".into())
+                };
+                for i in 0..x.num_rows() {
+                    if cx.slice(i, 1).to_data() != cy.slice(i, 1).to_data() {
+                        return Some(format!(
+                            "{}.{} row {}: {} vs {}",
+                            t,
+                            fx.name(),
+                            i,
+                            fmt(cx, i),
+                            fmt(cy, i)
+                        ));
+                    }
+                }
+                return Some(format!("{}.{}: buffers differ", t, fx.name()));
+            }
+        }
+    }
+    None
+}
+
+fn i64_col<'a>(t: &'a Tables, table: &str, col: &str) -> Result<&'a Int64Array, String> {
+    let b = t.get(table).ok_or_else(|| format!("no table {}", table))?;
+    let idx = b.schema().index_of(col).map_err(|_| format!("{} has no column {}", table, col))?;
+    b.column(idx)
+        .as_any()
+        .downcast_ref::<Int64Array>()
+        .ok_or_else(|| format!("{}.{} is not Int64", table, col))
+}
+
+pub struct Generator;
+impl Check for Generator {
+    type Case = GenCase;
+    fn name(&self) -> &'static str {
+        "generator"
+    }
+    fn rule(&self) -> &'static str {
+        "every (scale factor, seed) pair (each is generated 2x sequentially, 4x concurrently and once to Parquet)"
+    }
+    fn cases(&self, tier: Tier) -> u32 {
+        tier.pick(10, 300)
+    }
+    fn workers(&self, _tier: Tier) -> usize {
+        // each case already runs 4 generator threads and holds several copies of the data
+        6
+    }
+    fn max_shrink_iters(&self) -> u32 {
+        12
+    }
+    fn exhaustive(&self, _t: Tier) -> Option<Box<dyn Iterator<Item = GenCase> + '_>> {
+        // the documented default (seed 42) and the smallest scale factor of the quantifier
+        Some(Box::new(vec![GenCase { sf_e4: 100, seed: 42 }, GenCase { sf_e4: 10, seed: 0 }].into_iter()))
+    }
+    fn strategy(&self, tier: Tier) -> BoxedStrategy<GenCase> {
+        let sf = match tier {
+            Tier::Quick => prop_oneof![3 => 10u32..60, 2 => 60u32..201].boxed(),
+            Tier::Thorough => prop_oneof![3 => 10u32..60, 3 => 60u32..201, 1 => 201u32..501].boxed(),
+        };
+        (sf, prop_oneof![1 => 0u64..4, 1 => Just(42u64), 4 => any::<u64>()])
+            .prop_map(|(sf_e4, seed)| GenCase { sf_e4, seed })
+            .boxed()
+    }
+    fn test(&self, c: &GenCase, obs: &mut Obs) -> Verdict {
+        if c.sf_e4 < 10 || c.sf_e4 > 500 {
+            return Verdict::Discard("scale factor outside 0.001..0.05".into());
+        }
+        let sf = c.sf_e4 as f64 / 10_000.0;
+        obs.nontrivial(true);
+        obs.label(format!(
+            "sf:{}",
+            match c.sf_e4 {
+                10..=59 => "0.001-0.006",
+                60..=200 => "0.006-0.02",
+                _ => "0.02-0.05",
+            }
+        ));
+        // 1. sequential determinism
+        let a = match generate_mem(sf, c.seed) {
+            Ok(t) => t,
+            Err(e) => return Verdict::Fail(e),
+        };
+        match generate_mem(sf, c.seed) {
+            Ok(b) => {
+                if let Some(d) = diff(&a, &b) {
+                    return Verdict::Fail(format!("two sequential runs with sf={} seed={} differ: {}", sf, c.seed, d));
+                }
+            }
+            Err(e) => return Verdict::Fail(e),
+        }
+        // 2. concurrent determinism
+        let results: Vec<Result<Tables, String>> = std::thread::scope(|s| {
+            let hs: Vec<_> = (0..4).map(|_| s.spawn(|| generate_mem(sf, c.seed))).collect();
+            hs.into_iter()
+                .map(|h| h.join().unwrap_or_else(|p| Err(format!("generator thread panicked: {}", crate::engine::panic_text(p)))))
+                .collect()
+        });
+        for (i, r) in results.into_iter().enumerate() {
+            match r {
+                Ok(b) => {
+                    if let Some(d) = diff(&a, &b) {
+                        return Verdict::Fail(format!(
+                            "concurrent run {} with sf={} seed={} differs from the sequential run: {}",
+                            i, sf, c.seed, d
+                        ));
+                    }
+                }
+                Err(e) => return Verdict::Fail(e),
+            }
+        }
+        // 3. Parquet read-back
+        {
+            let dir = TempDir::new("c39");
+            let mut g = TpchGenerator::with_seed(sf, c.seed);
+            if let Err(e) = g.generate_to_parquet(dir.path()) {
+                return Verdict::Fail(format!("generate_to_parquet failed: {}", e));
+            }
+            match read_parquet_dir(dir.path()) {
+                Ok(p) => {
+                    if let Some(d) = diff(&a, &p) {
+                        return Verdict::Fail(format!(
+                            "Parquet files read back differ from the in-memory tables (sf={} seed={}): {}",
+                            sf, c.seed, d
+                        ));
+                    }
+                }
+                Err(e) => return Verdict::Fail(e),
+            }
+        }
+        // 4. row counts
+        for (t, n) in [("nation", 25usize), ("region", 5)] {
+            if a[t].num_rows() != n {
+                return Verdict::Fail(format!("{} has {} rows, TPC-H fixes {}", t, a[t].num_rows(), n));
+            }
+        }
+        for (t, ratio) in RATIO {
+            let want = ratio * sf;
+            let got = a[t].num_rows() as f64;
+            if (got - want).abs() > 1.0 {
+                return Verdict::Fail(format!("{} has {} rows at sf={}, the TPC-H ratio gives {}", t, got, sf, want));
+            }
+        }
+        // 5. foreign keys
+        for (ct, cc, pt, pc) in FKS {
+            let parent: HashSet<i64> = match i64_col(&a, pt, pc) {
+                Ok(p) => {
+                    if p.null_count() > 0 {
+                        return Verdict::Fail(format!("{}.{} contains NULL keys", pt, pc));
+                    }
+                    p.values().iter().copied().collect()
+                }
+                Err(e) => return Verdict::Fail(e),
+            };
+            let child = match i64_col(&a, ct, cc) {
+                Ok(x) => x,
+                Err(e) => return Verdict::Fail(e),
+            };
+            for i in 0..child.len() {
+                if child.is_null(i) || !parent.contains(&child.value(i)) {
+                    return Verdict::Fail(format!(
+                        "{}.{} row {} = {} refers to no row of {} ({} keys {}..{}) at sf={} seed={}",
+                        ct,
+                        cc,
+                        i,
+                        if child.is_null(i) { "NULL".to_string() } else { child.value(i).to_string() },
+                        pt,
+                        parent.len(),
+                        parent.iter().min().copied().unwrap_or(0),
+                        parent.iter().max().copied().unwrap_or(0),
+                        sf,
+                        c.seed
+                    ));
+                }
+            }
+        }
+        // measured, not asserted
+        if let (Ok(ck), Ok(ok)) = (i64_col(&a, "customer", "c_custkey"), i64_col(&a, "orders", "o_custkey")) {
+            let set: HashSet<i64> = ck.values().iter().copied().collect();
+            let hit = ok.values().iter().filter(|k| set.contains(k)).count();
+            obs.label(format!("measured:o_custkey-hit-rate~{}%", (hit * 10 / ok.len().max(1)) * 10));
+        }
+        if let (Ok(pp), Ok(ps), Ok(lp), Ok(ls)) = (
+            i64_col(&a, "partsupp", "ps_partkey"),
+            i64_col(&a, "partsupp", "ps_suppkey"),
+            i64_col(&a, "lineitem", "l_partkey"),
+            i64_col(&a, "lineitem", "l_suppkey"),
+        ) {
+            let set: HashSet<(i64, i64)> = pp.values().iter().copied().zip(ps.values().iter().copied()).collect();
+            let hit = lp.values().iter().zip(ls.values().iter()).filter(|(p, s)| set.contains(&(**p, **s))).count();
+            obs.label(format!(
+                "measured:(l_partkey,l_suppkey)-in-partsupp~{}%",
+                (hit * 10 / lp.len().max(1)) * 10
+            ));
+            if set.len() < pp.len() {
+                obs.label("measured:partsupp-has-duplicate-(partkey,suppkey)");
+            }
+        }
+        // does the seed matter at all? (recorded only)
+        if let Ok(b) = generate_mem(sf, c.seed.wrapping_add(1)) {
+            obs.label(if diff(&a, &b).is_some() { "seed-sensitive" } else { "seed-insensitive" });
+        }
+        obs.sample(serde_json::json!({"sf": sf, "seed": c.seed, "lineitem_rows": a["lineitem"].num_rows()}));
+        Verdict::Pass
+    }
+}
 
 pub fn property() -> Property {
-    Property { id: "C39", level: "exploration", assumptions: &[], checks: vec![] }
+    Property {
+        id: "C39",
+        level: "exploration",
+        assumptions: &[
+            "scale factors 0.001..0.05 in steps of 0.0001 (quick: up to 0.02)",
+            "row counts follow the ratio within +-1 (the code truncates ratio*sf computed in f64)",
+            "o_custkey is excluded from the foreign-key assertion: generator.rs documents drawing it from 1.5x the customer range; the composite (l_partkey,l_suppkey)->partsupp key is only measured",
+            "'across threads' = 4 generator instances running concurrently in one process, compared with a sequential run",
+        ],
+        checks: vec![Box::new(Generator)],
+    }
 }
